@@ -145,6 +145,11 @@ def run(ctx):
     c01.g5(ctx, R)
     c01.g6(ctx, R)
     c03.g7(ctx, R)
+    # printing of custom commands goes through the generic serializer (S1-S5 of C04); re-registration must not meet stale per-name state (H1 of C13)
+    from .c04 import serializer_rules
+    from .c13 import h1
+    serializer_rules(ctx, R)
+    h1(ctx, R)
 
 
 def present_fact(e, pol):
